@@ -51,6 +51,12 @@ func c09Jobs(tier string) []Job {
 
 func c09Run(r *Run, burnPaused, sendPaused bool, attCfg string) {
 	scn := c06Scenario()
+	scn.Genesis.AttesterList = append([]cctptypes.Attester{}, scn.Genesis.AttesterList...)
+	for i := range scn.Genesis.AttesterList {
+		if scn.Genesis.AttesterList[i].Attester == Keys[1].Hex {
+			scn.Genesis.AttesterList[i].Attester = c09K2Spelling(attCfg)
+		}
+	}
 	w := scn.Build(KindDB)
 	signers := Keys[0:2]
 	var pre []Action
@@ -100,10 +106,13 @@ func c09Run(r *Run, burnPaused, sendPaused bool, attCfg string) {
 		{"replacement of own deposit", repl2, Attest(repl2, signers)},
 		{"truncated own message (115 bytes)", ownMsg[:115], Attest(ownMsg[:115], signers)},
 	}
+	var disabled []string
 	switch attCfg {
 	case "rotated-away", "rotated-back":
 		do(Act("enableAttester(K3) by A1", &cctptypes.MsgEnableAttester{From: AttMgr.Str, Attester: Keys[2].Hex}))
-		do(Act("disableAttester(K2) by A1", &cctptypes.MsgDisableAttester{From: AttMgr.Str, Attester: Keys[1].Hex}))
+		k2 := c09K2Spelling(attCfg)
+		do(Act("disableAttester("+attName(k2)+") by A1", &cctptypes.MsgDisableAttester{From: AttMgr.Str, Attester: k2}))
+		disabled = append(disabled, k2)
 		if attCfg == "rotated-back" {
 			do(Act("enableAttester(0xK2) by A1", &cctptypes.MsgEnableAttester{From: AttMgr.Str, Attester: Keys[1].Spell(1)}))
 		}
@@ -117,6 +126,17 @@ func c09Run(r *Run, burnPaused, sendPaused bool, attCfg string) {
 	base := w.Dump()
 	baseHash := HashBytes(base)
 	view := ViewOf(w)
+	// "the current attester set" is what the history of successful enable/disable transactions
+	// says, not what the registry happens to still hold
+	for _, d := range disabled {
+		var keep []string
+		for _, a := range view.Attesters {
+			if a != d {
+				keep = append(keep, a)
+			}
+		}
+		view.Attesters = keep
+	}
 	r.States++
 	cfg := fmt.Sprintf("burnPaused=%v sendPaused=%v attesters=%s", burnPaused, sendPaused, attCfg)
 
@@ -228,4 +248,13 @@ func c09Run(r *Run, burnPaused, sendPaused bool, attCfg string) {
 			}
 		}
 	}
+}
+
+// c09K2Spelling: how the second attester is spelled in the genesis of this configuration
+// (upper case where it is later rotated away for good).
+func c09K2Spelling(attCfg string) string {
+	if attCfg == "rotated-away" {
+		return Keys[1].Spell(2)
+	}
+	return Keys[1].Hex
 }
